@@ -39,6 +39,9 @@ func mineChild(data []byte, target float64, workers int, prior interface{}, conc
 	if len(conc) > 0 && conc[0] != nil {
 		sp["conc"] = conc[0]
 	}
+	if len(conc) > 1 && conc[1] != nil {
+		sp["cancel_ms"] = conc[1]
+	}
 	spec, _ := json.Marshal(sp)
 	cmd := exec.Command(os.Args[0], "-test.run", "^TestVerifChild$", "-test.count=1")
 	cmd.Env = append(os.Environ(), "VERIF_CHILD_IN="+string(spec))
@@ -94,6 +97,12 @@ func TestVerifChild(t *testing.T) {
 		}
 	}
 	copy(buf, data)
+	ctxMain := context.Background()
+	if ms, ok := spec["cancel_ms"].(float64); ok { // the caller's context ends after a while (a timeout)
+		var cancelMain context.CancelFunc
+		ctxMain, cancelMain = context.WithTimeout(context.Background(), time.Duration(ms*float64(time.Millisecond)))
+		defer cancelMain()
+	}
 	// other Mine calls on the SAME Worker (other data, same target) may run at the same time
 	stop := make(chan struct{})
 	var bg sync.WaitGroup
@@ -114,7 +123,7 @@ func TestVerifChild(t *testing.T) {
 			}()
 		}
 	}
-	nonce, err := w.Mine(context.Background(), buf, target)
+	nonce, err := w.Mine(ctxMain, buf, target)
 	if spec["conc"] != nil { // repeat while the others are busy; the first call that misses the target is the one reported
 		for rep := 0; rep < 40 && err == nil; rep++ {
 			m := append(append([]byte{}, data...), vBytes(toIface(nonce8(nonce)))...)
@@ -156,7 +165,7 @@ func runF(op string, in M) (M, M) {
 		return M{"score": vFloat(s), "panic": p}, digestFacts(msg[:len(msg)-8])
 	case "pow.Mine":
 		data := vBytes(in["data"])
-		out := mineChild(data, vFloatOf(in["target"]), vIntOf(in["workers"]), in["prior"], in["conc"])
+		out := mineChild(data, vFloatOf(in["target"]), vIntOf(in["workers"]), in["prior"], in["conc"], in["cancel_ms"])
 		return out, digestFacts(data)
 	case "pow.required": // white box: the number of zeros Mine will look for
 		ln := vIntOf(in["len"])
@@ -275,7 +284,7 @@ func TestVerifDriver(t *testing.T) {
 		default:
 			target = exact * (1 - 1e-15*float64(r.Intn(10)))
 		}
-		workers := []int{1, 1, 2, 3, 8, 16}[r.Intn(6)]
+		workers := 1 + (k+int(vSeed()))%16 // every worker count 1..16 over a run
 		mineIn := M{"data": vInts(data), "target": vFloat(target), "workers": workers}
 		if k%3 == 1 && len(data) > 0 { // the same Worker and buffer mined other contents of the same length before
 			p1 := make([]byte, len(data))
@@ -290,6 +299,9 @@ func TestVerifDriver(t *testing.T) {
 			r.Read(p2)
 			emit("pow.Mine", M{"data": vInts(data), "target": vFloat(math.Pow(3, float64(1+r.Intn(2))) / float64(len(data)+8)), "workers": 16,
 				"prior": [][]int{vInts(p1), vInts(p2)}})
+		}
+		if k%7 == 3 { // a search that takes long, under a context that ends after a few milliseconds: a nonce or the cancellation error
+			emit("pow.Mine", M{"data": vInts(data), "target": vFloat(math.Pow(3, 16) / float64(len(data)+8)), "workers": 1 + k%3, "cancel_ms": 1 + k%4})
 		}
 		if k%6 == 2 && len(data) > 0 { // the same Worker mines other data at the same time (attainable targets only)
 			o1, o2 := make([]byte, len(data)), make([]byte, len(data)+3)
